@@ -13,5 +13,10 @@ require (
 )
 
 require github.com/robfig/cron/v3 v3.0.1
+
 require github.com/mattn/go-runewidth v0.0.16
-require github.com/rivo/uniseg v0.4.7
+
+require (
+	github.com/bmatcuk/doublestar/v4 v4.8.0
+	github.com/rivo/uniseg v0.4.7
+)
